@@ -31,7 +31,12 @@ Record obs := mkO {
    and queue entry ([unchanged]), and whether the content's complete effect is present ([full]). *)
 Inductive c08_case :=
 | CHist (w0 : world) (steps : list (Z * Z * hop * obs))
-| CScen (name : string) (expect_fail : bool) (ncalls : Z) (ok : bool) (exec res : Z) (unchanged full : bool).
+| CScen (name : string) (expect_fail : bool) (ncalls : Z) (ok : bool) (exec res : Z) (unchanged full : bool)
+(* CDyn: a dynamic-voter proposal kind (its voters, quorum, voting period and enactment delay come from an
+   owning object of another module).  The scenario created the object with the recorded, pairwise distinct
+   [q] / [period] / [enact] and [nowners] owner accounts, submitted through the real msg server at [t0],
+   cast [nvotes] yes votes, and ran end blocks at [blocks] = (time, result code after, handler calls in it). *)
+| CDyn (name : string) (t0 period enact q nowners nvotes : Z) (blocks : list (Z * Z * Z)).
 
 (* ---------------------------------------------------------------- equality helpers *)
 Fixpoint list_eqb {X} (e : X -> X -> bool) (l m : list X) : bool :=
@@ -126,6 +131,21 @@ Definition case_matches (c : c08_case) : bool :=
   | CScen _ expect_fail ncalls ok exec res _ _ =>
       (* the scenario did what it was scripted to do: enacted once, and the scripted step failed or not *)
       (ncalls =? 1) && (res =? 1) && Bool.eqb ok (negb expect_fail)
+  | CDyn _ t0 period enact q nowners nvotes blocks =>
+      (* expected from the OBJECT's parameters: finalised by the first block at or after t0 + period, applied by
+         the first later block at or after t0 + period + enactment *)
+      let pass := (q * nowners <=? nvotes * PREC) && (0 <? nvotes) in
+      let fix go (res : Z) (l : list (Z * Z * Z)) : bool :=
+        match l with
+        | [] => true
+        | (t, r, c) :: rest =>
+            let '(res', calls) :=
+              if (res =? 4) && (t0 + period * NS <=? t) then ((if pass then 6 else 5), 0)
+              else if (res =? 6) && (t0 + (period + enact) * NS <=? t) then (1, 1)
+              else (res, 0) in
+            (r =? res') && (c =? calls) && go res' rest
+        end in
+      go 4 blocks
   end.
 
 Fixpoint mismatches_from (n : nat) (cs : list c08_case) : list nat :=
@@ -416,10 +436,28 @@ Definition scen_clauses (name : string) (ncalls : Z) (ok : bool) (exec : Z) (unc
          (String.append (if ok then "atomic:success_without_complete_effect:" else "atomic:failure_left_writes:") name)
       ++ cl (exec =? (if ok then 1 else 2)) (String.append "exec_flag:" name)).
 
+(* voting end, quorum and enactment time judged from the owning object's own parameters *)
+Fixpoint dyn_clauses (name : string) (t0 period enact q nowners nvotes : Z) (res : Z) (l : list (Z * Z * Z)) : list string :=
+  match l with
+  | [] => []
+  | (t, r, c) :: rest =>
+      (if (res =? 4) && negb (r =? 4) then
+         cl (t0 + period * NS <=? t) (String.append "early_final:dynamic:" name)
+         ++ (if r =? 6 then cl (q * nowners <=? nvotes * PREC) (String.append "passed_without_quorum:dynamic:" name) else [])
+       else [])
+      ++ (if 0 <? c then
+            cl (t0 + (period + enact) * NS <=? t) (String.append "applied_before_enactment_time:dynamic:" name)
+            ++ cl (res =? 6) (String.append "applied_not_passed:dynamic:" name)
+            ++ cl (c =? 1) (String.append "applied_twice:dynamic:" name)
+          else [])
+      ++ dyn_clauses name t0 period enact q nowners nvotes r rest
+  end.
+
 Definition case_clauses (c : c08_case) : list string :=
   match c with
   | CHist w0 steps => dedup (ck_run (mkK w0 w0 []) steps)
   | CScen name _ ncalls ok exec _ unchanged full => scen_clauses name ncalls ok exec unchanged full
+  | CDyn name t0 period enact q nowners nvotes blocks => dedup (dyn_clauses name t0 period enact q nowners nvotes 4 blocks)
   end.
 
 Fixpoint violations_from (n : nat) (cs : list c08_case) : list (nat * list string) :=
